@@ -11,7 +11,8 @@ MarshalDemands(e) ==
     <<"H.n",            BIsCanon(n) /\ FitsU64(n)>>,
     <<"C04.stable",     e.mt2 = e.mt /\ e.mj2 = e.mj>>,
     <<"C04.held",       e.held = e.mt /\ e.heldj = e.mj>>,
-    <<"C13.held",       e.heldp = FmtSize(n, FormatPretty)>>,            \* marshalling again after the caller overwrote the results
+    <<"C13.held",       e.heldp = FmtSize(n, FormatPretty) /\ e.helds = FmtSize(n, 0) /\ e.heldps = FmtSize(n, FormatPretty)
+                        /\ e.heldh = FmtSize(n, FormatPretty + FormatHTML)>>,            \* marshalling again after the caller overwrote the results
     <<"C04.text_back",  BackIs(e.ut, n)>>,
     <<"C04.json_back",  BackIs(e.uj, n)>>,
     <<"C04.struct",     BackIs(e.cs, n)>>,
